@@ -17,7 +17,7 @@ for patch in patches:
         a = sh(f"git apply {os.path.abspath(patch)}", repo)
         if a.returncode != 0: matrix[name] = {"error": "patch does not apply"}; continue
         os.makedirs(root)
-        shutil.copytree("/verif/mc", os.path.join(root, "mc"))
+        shutil.copytree(os.environ.get("MX_MC", "/verif/mc"), os.path.join(root, "mc"))
         shutil.copy("/verif/known_findings.txt", root)
         gm = os.path.join(root, "mc", "go.mod"); s = open(gm).read().replace("=> /repo", "=> " + repo); open(gm, "w").write(s)
         b = sh("go build -o ../bin/pmc ./cmd/pmc", os.path.join(root, "mc"))
